@@ -63,6 +63,11 @@ def gen(rng, size='small'):
     if late:
         est = rng.choice([4, 8, 12, 20])
         ext = [('run', est), ('init',)]
+    # ... and one in seven: the scheduler is created by another asset while that asset is being initialised at the start of the
+    # simulation (an asset that builds its own scheduler); it is part of the system from then on and must be started with the others
+    nested = not late and rng.random() < 0.15
+    if nested:
+        ext = [('init',)]
     for _ in range(n_ops):
         r = rng.random()
         if r < 0.12:
@@ -82,6 +87,8 @@ def gen(rng, size='small'):
     sc = dict(seed=rng.randint(0, 1000), mod=rng.choice([1, 3, 1 << 20]), cyclic=cyclic, schedule=schedule, ext=ext)
     if late:
         sc['late'] = True
+    if nested:
+        sc['nested'] = True
     return sc
 
 
@@ -122,7 +129,17 @@ def run_impl(sc):
             schedule.append((0.125, -7))       # the caller goes on using its list: the scheduler must follow the timetable it was built with
             return r
         late = bool(sc.get('late'))
-        sched = None if late else create()
+        nested = bool(sc.get('nested'))
+        made = []
+        if nested:
+            from simprocesd.model.factory_floor import Asset
+
+            class Maker(Asset):
+                def initialize(self, env_):
+                    super().initialize(env_)
+                    made.append(create())
+            Maker('maker')
+        sched = None if (late or nested) else create()
         nobj = 1 + max([x[1] for x in sc['ext'] if x[0] in ('reg', 'unreg')] + [x[3] for x in sc['ext'] if x[0] in ('dreg', 'dunreg')] + [0])
         objs = [Obj(i) for i in range(nobj)]
 
@@ -194,6 +211,12 @@ def run_impl(sc):
                     elif k == 'init':
                         if late:
                             sched = create()          # the System is initialised: constructing the asset starts it
+                        elif nested:
+                            # what System.simulate does first: the maker, initialised, creates the scheduler, which is initialised in turn
+                            system.resource_manager.initialize(env)
+                            system._initialize_assets()
+                            system._simulation_is_initialized = True
+                            sched = made[0]
                         else:
                             sched.initialize(env)
                     elif k == 'step':
